@@ -23,6 +23,7 @@ def run(ctx):
     from . import common_state as ST
     ST.rule_cache_keys(ctx, "R7")
     ST.rule_one_shot_iterators(ctx, "R8")
+    ST.rule_memo_keys(ctx, "R9")
     ctx.rule("R5s", "urlpathsplit / get_query_argument parse through safe_urlsplit, which keeps the url as it is exactly when PROTOCOL_RE matches at its start")
     from .common_url import rule_safe_urlsplit
     rule_safe_urlsplit(ctx, "R5s")
@@ -34,7 +35,7 @@ def protocol_laws(ctx, rule):
     repo = ctx.repo
     site = repo.mod("force_protocol").site(repo.mod("force_protocol").func("force_protocol").node)
     prefixes = ["", "//", "http://", "HTTPS://", "ftp://", "custom://"]
-    rests = ["a.com", "a.com/x?u=http://b.org/y", "a.com:8080/x", "user:pw@a.com/x", "localhost//a", "a.com/x#//f", "xn--caf-dma.fr/\u00e9", ""]
+    rests = ["a.com", "httpstat.us/200", "a.com/x?u=http://b.org/y", "a.com:8080/x", "user:pw@a.com/x", "localhost//a", "a.com/x#//f", "xn--caf-dma.fr/\u00e9", ""]
     protocols = ["http", "https://", "ftp:", "wss", "custom", "p://"]
     E_ = lambda u, p: TB.call(repo, "ensure_protocol", "ensure_protocol", u, p)
     F_ = lambda u, p: TB.call(repo, "force_protocol", "force_protocol", u, p)
@@ -209,7 +210,7 @@ def branch_templates(ctx, rule):
             # the helper interpreted on the same (url class x protocol spelling) cells, extra spellings of each class included
             from ..microeval import Raised
             out = []
-            extra = {"no-protocol": ["lemonde.fr/login?next=https://abo.lemonde.fr/", "a.com", "a.com:8080/x", "localhost:3000/x", "user:pw@a.com/x", "mailto:x@a.com"], "protocol-relative": ["//a.com", "///a.com/x"], "has-protocol": ["HTTP://a.com/x", "https://a.com/?u=b.org", "git://a.com/x", "P://a.com/x", "feed://www.a.com/rss", "://a.com/x"]}
+            extra = {"no-protocol": ["httpstat.us/200", "https.lemonde.fr/une", "HTTPSwatch.com/x", "http.cat/200", "httpbin.org/get", "lemonde.fr/login?next=https://abo.lemonde.fr/", "a.com", "a.com:8080/x", "localhost:3000/x", "user:pw@a.com/x", "mailto:x@a.com"], "protocol-relative": ["//a.com", "///a.com/x"], "has-protocol": ["HTTP://a.com/x", "https://a.com/?u=b.org", "git://a.com/x", "P://a.com/x", "feed://www.a.com/rss", "://a.com/x"]}
             for cname, m, r, rep in CLASSES:
                 for u in [rep] + extra[cname]:
                     for proto in (("p", "p:", "p://") if name != "strip_protocol" else (None,)):
@@ -365,6 +366,28 @@ def builder(ctx, rule):
                    "URLFormatter(**%r).%s(**%r) gives %r, expected %r (%s)" % (init, mname, kw, got, exp, what), fm.site(methods[mname]),
                    witness="URLFormatter(**%r).%s(**%r)" % (init, mname, kw), sample="%s -> %r" % (what, got))
 
+    sequences = [
+        ({"base_url": "http://a.com", "path": "d"}, [({}, "http://a.com/d"), ({"ext": "json"}, "http://a.com/d.json"), ({}, "http://a.com/d")]),
+        ({"base_url": "http://a.com", "path": "d"}, [({"ext": "rss"}, "http://a.com/d.rss"), ({}, "http://a.com/d"), ({"fragment": "f"}, "http://a.com/d#f"), ({}, "http://a.com/d")]),
+        ({"base_url": "http://a.com", "args": {"a": 1}}, [({}, "http://a.com?a=1"), ({"args": {"b": 2}}, "http://a.com?a=1&b=2"), ({}, "http://a.com?a=1"), ({"path": "x"}, "http://a.com/x?a=1")]),
+    ]
+    for mname in ("format", "__call__"):
+        mref = FuncRef(fm, methods[mname], "ural.format_url.URLFormatter.%s" % mname)
+        for si, (init, calls) in enumerate(sequences):
+            try:
+                obj = instantiate(repo, fm, cls, [], dict(init))
+                gots = []
+                for kw, _ in calls:
+                    gots.append(run_function(repo, mref, [obj], dict(kw)))
+            except Raised as e:
+                gots = "raises " + e.name
+            except Unknown as e:
+                ctx.undecided(rule, "URLFormatter(%r).%s called several times: %s" % (init, mname, e))
+                continue
+            exps = [e_ for _, e_ in calls]
+            ctx.ob(rule, "URLFormatter.%s/sequence-%d" % (mname, si), gots == exps,
+                   "one URLFormatter(**%r) instance, %s called with %r in turn gives %r, expected %r: a call answers from what an earlier call stored" % (init, mname, [k for k, _ in calls], gots, exps),
+                   fm.site(methods[mname]), witness="f = URLFormatter(**%r); %s" % (init, "; ".join("f(**%r)" % (k,) for k, _ in calls)))
 
 def query_argument(ctx, rule):
     ctx.rule(rule, "add_query_argument / get_query_argument (writer/reader agreement): the fragment is split at the first '#'; the writer quotes name and value and the reader unquotes the stored name and value; both use '&' and '=' as safe_qsl_iter does; re-assembly order url ? query # fragment; exactly one item appended")
@@ -387,6 +410,10 @@ def query_argument(ctx, rule):
         (("http://a.com/x#", "k", "v"), "http://a.com/x?k=v#"),
         (("http://a.com/x?a=1?", "k", "v"), "http://a.com/x?a=1?&k=v"),
         (("http://a.com/x?a=b?c#f?g", "k", "v"), "http://a.com/x?a=b?c&k=v#f?g"),
+        # a '?' that belongs to the fragment of a url without query (hash-routed pages)
+        (("http://a.com/inbox#/thread/42?tab=files", "k", "v"), "http://a.com/inbox?k=v#/thread/42?tab=files"),
+        (("http://a.com#!topic?hl=en", "k", "v"), "http://a.com?k=v#!topic?hl=en"),
+        (("http://a.com/x#?", "k", "v"), "http://a.com/x?k=v#?"),
     ]
     for args, exp in cases:
         try:
